@@ -449,6 +449,9 @@ def run(scenario, make_agents=None):
     wtower.sleep = sim.sleep
     wreg.calculate_regression = rec_reg
     try:
+        if sc.get("argv"):
+            crashed, exited = _run_main(sim, sc)
+            return {"sim": sim, "crashed": crashed, "exited": exited}
         bot_cfg = sc["bot"]
         gen = implrun.build_gen(bot_cfg["gen"])
         rh = sc["rhythm"]
@@ -483,6 +486,49 @@ def run(scenario, make_agents=None):
         _time.time, _time.sleep, wtower.sleep, wreg.calculate_regression = saved
         fake_socketio.set_factory(None)
     return {"sim": sim, "crashed": crashed, "exited": exited}
+
+
+def _run_main(sim, sc):
+    """The session through the real `wheatley.main.main(argv)`: the tower page is fetched from the fake web, tower,
+    row generator, rhythm and Bot are built by `console_main` itself.  Two names of `wheatley.main` are wrapped so
+    that the simulator can see what it needs: `create_rhythm` (its result is put behind the recording proxy) and
+    `RingingRoomTower` (the instance is remembered)."""
+    page = '<script>window.tower_parameters = { id: 1, server_ip: "http://fake-rr" };</script>'
+    routes = [lambda url, params: implrun.FakeResponse(page) if "complib" not in url else None]
+    g = sc["bot"]["gen"]
+    if g.get("type") == "comp":
+        text = implrun.comp_payload(g)
+        routes.insert(0, lambda url, params: implrun.FakeResponse(text) if "complib" in url else None)
+    saved_routes = implrun.HTTP.routes
+    implrun.HTTP.routes = routes
+    real_create, real_tower = wmain.create_rhythm, wmain.RingingRoomTower
+
+    def create_rhythm(*a, **k):
+        r = real_create(*a, **k)
+        sim.rhythm = r
+        return RecRhythm(r, sim)
+
+    class Tower(real_tower):
+        def __init__(self, *a, **k):
+            super().__init__(*a, **k)
+            sim.tower = self
+    wmain.create_rhythm, wmain.RingingRoomTower = create_rhythm, Tower
+    crashed, exited = None, False
+    try:
+        wmain.main(list(sc["argv"]))
+        exited = True
+    except Stop:
+        pass
+    except EventCap:
+        crashed = "EventCap"
+    except SystemExit as e:
+        crashed = f"SystemExit({e})"[:80]
+    except Exception as e:  # noqa
+        crashed = type(e).__name__
+    finally:
+        wmain.create_rhythm, wmain.RingingRoomTower = real_create, real_tower
+        implrun.HTTP.routes = saved_routes
+    return crashed, exited
 
 
 def _bind(sim, client):
